@@ -440,6 +440,59 @@ def gen_island_case(rng, n_dim=2):
     return table_case(w, d, extrude, "islands")
 
 
+def hole_mask(rng):
+    """a region that is not simply connected: one block with enclosed holes (single cells, pairs, a 2 x 2 hole, two holes
+    touching only diagonally)"""
+    n0, n1 = rng.randrange(10, 18), rng.randrange(10, 18)
+    m = np.zeros((n0, n1), dtype=bool)
+    m[1:n0 - 1, 1:n1 - 1] = True
+    if rng.random() < 0.4:                       # rounded outline
+        for i in range(n0):
+            for j in range(n1):
+                if ((i - (n0 - 1) / 2) / (n0 / 2 - 1)) ** 2 + ((j - (n1 - 1) / 2) / (n1 / 2 - 1)) ** 2 > 1:
+                    m[i, j] = False
+    kind = rng.choice(["single", "pair", "block", "diagonal", "several"])
+    ci, cj = n0 // 2, n1 // 2
+    if kind == "single":
+        m[ci, cj] = False
+    elif kind == "pair":
+        m[ci, cj] = m[ci, cj + 1] = False
+    elif kind == "block":
+        m[ci - 1:ci + 1, cj - 1:cj + 1] = False
+    elif kind == "diagonal":
+        m[ci, cj] = m[ci - 1, cj - 1] = False
+    else:
+        m[ci, cj] = False
+        m[ci - 2, cj + 2] = False
+        m[ci + 2, cj - 2] = m[ci + 2, cj - 1] = False
+    if rng.random() < 0.5:
+        m = m.T
+    return np.ascontiguousarray(m), kind
+
+
+def gen_hole_case(rng, n_dim=2):
+    d = [rng.choice([0.05, 0.1, 0.25, 0.5, 1.0, 2.0]) for _ in range(n_dim)]
+    if rng.random() < 0.5:
+        d = [d[0]] * n_dim
+    if n_dim == 2:
+        m, k = hole_mask(rng)
+        w = np.where(m, 1.0 + 0.2 * np.array([[rng.random() for _ in range(m.shape[1])] for _ in range(m.shape[0])]), 1e-4)
+        return table_case(w, d, None, "hole/" + k)
+    # 3-D shell around a cavity: independent axes whose cell masses dip in the middle; a cell is excluded iff all three
+    # coordinates are "low" (the cavity) or one of them lies in the empty margin
+    masses = []
+    for _ in range(3):
+        k_hi, k_lo = rng.randrange(1, 3), rng.randrange(1, 3)
+        masses.append([1e-6] * rng.randrange(1, 3) + [1.0] * k_hi + [0.1] * k_lo + [1.0] * k_hi + [1e-6] * rng.randrange(1, 3))
+    t = {"masses": masses, "deltas": d}
+    full = np.einsum("i,j,k->ijk", *[np.array(mm) / np.sum(mm) for mm in masses])
+    H = full > 0.5 * (0.1 * 0.1 * 1.0) / np.prod([np.sum(mm) for mm in masses])
+    lim = float(full[H].sum() + 0.5 * full[~H].max())
+    limits, dl = M.product_grid(t)
+    return {"kind": "contour", "desc": {"product": t, "dims": [{"family": "table"}] * 3}, "alpha": float(1 - lim),
+            "limits": limits, "deltas": dl, "shape_kind": "hole/cavity"}
+
+
 def table_case(weights, deltas, extrude=None, shape_kind="table"):
     """contour case on a TableModel: the enclosed region is exactly {weights > 1/2} (x the extruded range)"""
     w = np.asarray(weights, dtype=float)
@@ -646,6 +699,29 @@ def coords_as_sets(cont, n_dim):
     return "one", [[[float(v) for v in row] for row in co]]
 
 
+def truth_region(c, out):
+    """the enclosed region determined independently of what _compute hands to scipy: the cells whose density (product of CDF
+    differences / cell volume, recomputed from the model's cdfs) is at least the reported fm.  Only for cells that tie
+    with fm (relative 1e-9) the recorded array is consulted.  Returns (region, n_cells_that_differ_from_the_recorded_array)."""
+    from harness import c02 as C02
+    cont = out["contour"]
+    rec = np.asarray(out["erosions"][0][0]) != 0
+    coords = [np.asarray(cc, dtype=float) for cc in cont.cell_center_coordinates]
+    deltas = [float(d) for d in cont.deltas]
+    if any(len(cc) < 2 for cc in coords):
+        return rec, 0
+    with np.errstate(all="ignore"):
+        P, N = C02.independent_cell_probabilities(out["model"], c["desc"], coords, deltas)
+    if np.isnan(P).any() or P.shape != rec.shape:
+        return rec, 0
+    f = P / float(np.prod(deltas))
+    fm = float(cont.fm)
+    rt = 1e-9 + 8 * np.where(np.isfinite(N), N, 1.0)
+    tie = np.abs(f - fm) <= rt * max(abs(fm), 1e-300)
+    region = np.where(tie, rec, f >= fm)
+    return region, int((region != rec).sum())
+
+
 def oracle_contour(c, out=None):
     out = out or run_contour(c)
     n = len(c["desc"]["dims"])
@@ -659,7 +735,7 @@ def oracle_contour(c, out=None):
     cont = out["contour"]
     if not out["erosions"]:
         return (dict(sig0, clause="boundary"), "no region was handed to binary_erosion")
-    hdr = np.asarray(out["erosions"][0][0]) != 0
+    hdr, _ = truth_region(c, out)
     want_idx = sorted(boundary_cells(hdr))
     centres = cont.cell_center_coordinates
     want = sorted(tuple(float(centres[d][i[d]]) for d in range(n)) for i in want_idx)
@@ -720,6 +796,7 @@ def coq_contour_case(c, out):
     cont = out["contour"]
     n = len(c["desc"]["dims"])
     hdr_in, st, er = out["erosions"][0]
+    hdr_in = truth_region(c, out)[0]        # the region as the densities define it (not the array handed to binary_erosion)
     lab_in, st2, lab, nm = out["labels"][0]
     sh = list(hdr_in.shape)
     st_ok = (st is not None and st.shape == (3,) * n and bool(np.all(st)) and st2 is not None and st2.shape == (3,) * n and bool(np.all(st2)))
@@ -758,6 +835,8 @@ def shrink_points(c, sig):
 def shrink_contour(c, sig):
     if c["desc"].get("table") is not None:
         return shrink_table(c, sig)
+    if c["desc"].get("product") is not None:
+        return c                      # already small (the grid belongs to the model)
     cur = c
     for _ in range(3):
         d = cur["deltas"]
@@ -849,6 +928,8 @@ def run(ctx):
         cases_c.append(gen_table_case(rng, 3))
     for i in range(ctx.n(4, 30)):
         cases_c.append(gen_island_case(rng, 3 if i % 4 == 3 else 2))
+    for i in range(ctx.n(6, 40)):
+        cases_c.append(gen_hole_case(rng, 3 if i % 3 == 2 else 2))
     for i in range(ctx.n(2, 12)):
         cases_c.append(gen_ridge_case(rng, 2))
     for i in range(ctx.n(1, 6)):
